@@ -12,6 +12,7 @@
 //!      4 prepend(a, len c, seed d) | 5 append(a, len c, seed d) | 6 duplicate(a) | 7 rename/move(a, dir b)
 //!      8 remove(a) | 9 new file(len c, seed d, kind b) | 10 file `{"nodes":[]}\n` | 11 empty directory
 //!      12 file whose bytes are a tree blob of the previous snapshot (b-th tree) | 13 ~c filler files of 1..40 bytes
+//!      14 duplicate the most recently added file
 //! Output: `ok | B<k> key=val .. G n (t id)* I (N name meta | E tid | O name meta n (id len)*)* P t n id* .. X kind name off removed inserted .. | ...`
 use std::collections::BTreeMap;
 use std::fs;
@@ -107,8 +108,9 @@ fn apply_op(w: &mut World, op: u64, a: u64, b: u64, c: u64, d: u64, repo_blob: &
             write_file(&p, &new);
             Some(format!("X {op} {} {off} {rem} {} {}", w.files[i].0, ins.len(), old.len()))
         }
-        6 if nf > 0 => {
-            let i = pick(a);
+        6 | 14 if nf > 0 => {
+            // 14: duplicate the most recently added file (identical content inside ONE backup)
+            let i = if op == 14 { nf - 1 } else { pick(a) };
             let kind = w.files[i].0.chars().next().unwrap_or('x');
             let name = w.fresh(&format!("{kind}dup"));
             let dir = (b as usize) % DIRS.len();
@@ -343,7 +345,12 @@ fn case(line: &str) -> String {
     fs::create_dir_all(&w.root).unwrap();
     for i in 0..nfiles {
         let dir = r.below(DIRS.len() as u64) as usize;
-        let (kind, b) = gen_content(&mut r, maxfile.max(4));
+        // every sixth file or so repeats the previous file's content (sharing inside one backup)
+        let (kind, b) = if i > 0 && r.below(6) == 0 {
+            (w.files[i - 1].0.chars().next().unwrap_or('x'), fs::read(w.path(i - 1)).unwrap())
+        } else {
+            gen_content(&mut r, maxfile.max(4))
+        };
         w.files.push((format!("{kind}f{i}"), dir));
         write_file(&w.path(i), &b);
     }
